@@ -65,7 +65,7 @@ impl<'a> Gen<'a> {
 
     pub fn op_create_pool(&mut self) {
         let stable = self.r.chance(1, 2);
-        let p = gen_pool(self.r, stable);
+        let p = gen_pool_hist(self.r, stable);
         let mut funds = self.creation_funds();
         match self.r.below(30) {
             0 => { funds.pop(); }
@@ -111,10 +111,13 @@ impl<'a> Gen<'a> {
         let mut funds: Vec<Coin> = vec![];
         let single = !empty && n == 2 && self.r.chance(1, 4);
         if empty {
+            let stable_pool = !matches!(pi.pool_type, mantra_dex_std::pool_manager::PoolType::ConstantProduct);
+            // stableswap pools are seeded roughly balanced in value (same whole-token amount ±10 %)
+            let whole_common = 1 + self.r.below(1_000_000) as u128;
             for (i, a) in pi.assets.iter().enumerate() {
                 let dec = pi.asset_decimals[i].min(18) as u32;
-                let whole = 1 + self.r.below(1_000_000) as u128;
-                let amt = match self.r.below(6) { 0 => 1 + self.r.below(2000) as u128, 1 => rand_mag(self.r, 28), _ => whole * 10u128.pow(dec) / [1u128, 1, 10, 1000][self.r.below(4) as usize] + self.r.below(10) as u128 };
+                let whole = if stable_pool && !self.r.chance(1, 12) { whole_common * (95 + self.r.below(11) as u128) / 100 + 1 } else { 1 + self.r.below(1_000_000) as u128 };
+                let amt = match self.r.below(if stable_pool { 12 } else { 6 }) { 0 => 1 + self.r.below(2000) as u128, 1 => if stable_pool { whole * 10u128.pow(dec) } else { rand_mag(self.r, 28) }, _ => whole * 10u128.pow(dec) / [1u128, 1, 10, 1000][self.r.below(if stable_pool { 2 } else { 4 }) as usize] + self.r.below(10) as u128 };
                 funds.push(coin(amt.max(1), a.denom.clone()));
             }
             if self.r.chance(1, 15) { funds.pop(); }
@@ -161,7 +164,7 @@ impl<'a> Gen<'a> {
         let amt = match self.r.below(10) { 0 => gen_offer(self.r, res), 1 => res / 1000 + 1, 2 => res / 100 + 1, 3 => res / 20 + 1, 4 => res / 100_000 + 1, _ => res / 5000 + 1 + self.r.below(1000) as u128 };
         let sender = pick_user(self.r);
         let belief = if self.r.chance(4, 5) { "-".to_string() } else { opt_dec_str(self.r, &[Some(1_000_000_000_000_000_000), Some(2_000_000_000_000_000_000), Some(500_000_000_000_000_000), Some(0), Some(1_000_000)]) };
-        let ms = self.slip();
+        let ms = if self.r.chance(2, 3) { "500000000000000000".to_string() } else { self.slip() };
         let recv = self.receiver(sender);
         let funds = if amt == 0 { vec![] } else { vec![coin(amt, pi.assets[oi].denom.clone())] };
         // C12: the quote an instant before the swap
@@ -212,7 +215,7 @@ impl<'a> Gen<'a> {
         let amt = offer_res / [100_000u128, 10_000, 1000, 200, 20][self.r.below(5) as usize] + 1;
         let sender = pick_user(self.r);
         let mr = match self.r.below(8) { 0 => "1".to_string(), 1 => u128::MAX.to_string(), _ => "-".into() };
-        let ms = self.slip();
+        let ms = if self.r.chance(2, 3) { "500000000000000000".to_string() } else { self.slip() };
         let recv = self.receiver(sender);
         let mut s = format!("{}", ops.len());
         for (i, o_, p) in ops.iter() { s += &format!(" {} {} {}", i, o_, p); }
